@@ -22,53 +22,92 @@ theorem flags_testBit0 (m : Nat) (a b c : Bool) :
   rw [Nat.testBit_zero]
   cases a <;> cases b <;> cases c <;> simp <;> omega
 
-theorem formTuple_hasNull (cols : List Col) (r : RowV) : (formTuple cols r).hasNull = r.hasNull := by
-  simp only [Tuple.hasNull, formTuple]
+theorem formTupleH_hasNull (h : HdrFields) (cols : List Col) (r : RowV) : (formTupleH h cols r).hasNull = r.hasNull := by
+  simp only [Tuple.hasNull, formTupleH]
   exact flags_testBit0 _ _ _ _
 
-/-- the formed tuple is a well-formed heap tuple -/
-theorem formTuple_WF (cols : List Col) (r : RowV) (hwf : r.WF cols) : (formTuple cols r).WF := by
+theorem formTuple_hasNull (cols : List Col) (r : RowV) : (formTuple cols r).hasNull = r.hasNull :=
+  formTupleH_hasNull {} cols r
+
+theorem natts_flags2 (n f : Nat) (hn : n ≤ 1600) : (n + 2048 * f) % 2048 = n := by omega
+
+/-- the formed tuple is a well-formed heap tuple, whatever the free header fields are -/
+theorem formTupleH_WF (h : HdrFields) (hh : h.WF) (cols : List Col) (r : RowV) (hwf : r.WF cols) : (formTupleH h cols r).WF := by
   obtain ⟨hlen, hnat, h1600, hmask, _⟩ := hwf
+  obtain ⟨hct, hf2⟩ := hh
   have hpl : r.present.length = r.natts := by simp [RowV.present]; omega
   have hbl : (encBitmap r.present).length = (r.natts + 7) / 8 := by simp [encBitmap, hpl]
-  refine ⟨by simp [formTuple], by simp [formTuple]; omega, ?_, ?_, ?_⟩
-  · simp only [formTuple]
+  refine ⟨by simp [formTupleH, hct], by simp [formTupleH]; omega, ?_, ?_, ?_⟩
+  · simp only [formTupleH]
     have : (if r.hasNull then 1 else 0) + (if (r.vals.take r.natts).any isVarwidth then 2 else 0) +
         (if (r.vals.take r.natts).any isExternal then 4 else 0) ≤ 7 := by
       split <;> split <;> split <;> omega
     omega
-  · simp only [Tuple.hoff, formTuple]
+  · simp only [Tuple.hoff, formTupleH]
     by_cases hn : r.hasNull = true
     · simp only [hn, if_true, List.length_append, zeros_length, hbl]; omega
     · simp only [hn]; simp
   · intro hh
-    simp only [Tuple.bitmapLen, Tuple.natts, formTuple]
+    simp only [Tuple.bitmapLen, Tuple.natts, formTupleH]
     by_cases hn : r.hasNull = true
     · simp only [hn, if_true, List.length_append, zeros_length, hbl]
-      have : r.natts % 2048 = r.natts := Nat.mod_eq_of_lt (by omega)
+      have : (r.natts + 2048 * h.flags2) % 2048 = r.natts := natts_flags2 _ _ h1600
       omega
     · exfalso
-      rw [formTuple_hasNull] at hh
+      rw [formTupleH_hasNull] at hh
       exact hn hh
 
+theorem testBit_flags (m f k : Nat) (hf : f < 8) (hk : 3 ≤ k) : (m / 8 * 8 + f).testBit k = m.testBit k := by
+  obtain ⟨j, rfl⟩ : ∃ j, k = 3 + j := ⟨k - 3, by omega⟩
+  simp only [Nat.testBit_eq_decide_div_mod_eq, Nat.pow_add, ← Nat.div_div_eq_div_mul]
+  have : (m / 8 * 8 + f) / 2 ^ 3 = m / 2 ^ 3 := by omega
+  rw [this]
+
+theorem formFlags_lt (a b c : Bool) : ((if a then 1 else 0) + (if b then 2 else 0) + (if c then 4 else 0) : Nat) < 8 := by
+  cases a <;> cases b <;> cases c <;> simp
+
+/-- the bits of t_infomask from HEAP_HASOID_OLD (0x0008) up are the ones the row version carries -/
+theorem formTupleH_testBit (h : HdrFields) (cols : List Col) (r : RowV) (k : Nat) (hk : 3 ≤ k) :
+    (formTupleH h cols r).infomask.testBit k = r.infomask.testBit k := by
+  simp only [formTupleH]
+  exact testBit_flags _ _ k (formFlags_lt _ _ _) hk
+
+/-- live / deleted of a formed tuple are decided by the hint bits the row version carries -/
+theorem formTupleH_infomask_live (h : HdrFields) (cols : List Col) (r : RowV) :
+    liveBits (formTupleH h cols r).infomask = liveBits r.infomask := by
+  simp only [liveBits, formTupleH_testBit h cols r _ (by omega : 3 ≤ 8), formTupleH_testBit h cols r _ (by omega : 3 ≤ 10),
+    formTupleH_testBit h cols r _ (by omega : 3 ≤ 11)]
+
+theorem formTupleH_infomask_deleted (h : HdrFields) (cols : List Col) (r : RowV) :
+    deletedBits (formTupleH h cols r).infomask = deletedBits r.infomask := by
+  simp only [deletedBits, formTupleH_testBit h cols r _ (by omega : 3 ≤ 10), formTupleH_testBit h cols r _ (by omega : 3 ≤ 11)]
+
+theorem hdrFields_default_WF : ({} : HdrFields).WF := by decide
+
+theorem formTuple_WF (cols : List Col) (r : RowV) (hwf : r.WF cols) : (formTuple cols r).WF :=
+  formTupleH_WF {} hdrFields_default_WF cols r hwf
 
 /-- the scanner's tuple for a formed row is `rowTuple` (with the header the scanner computed) -/
-theorem mtuple_formTuple (cols : List Col) (r : RowV) (hwf : r.WF cols) :
-    Proofs.mtuple (formTuple cols r) = rowTuple (Proofs.mtuple (formTuple cols r)).header cols r := by
+theorem mtuple_formTupleH (h : HdrFields) (cols : List Col) (r : RowV) (hwf : r.WF cols) :
+    Proofs.mtuple (formTupleH h cols r) = rowTuple (Proofs.mtuple (formTupleH h cols r)).header cols r := by
   obtain ⟨hlen, hnat, h1600, hmask, _⟩ := hwf
   have hpl : r.present.length = r.natts := by simp [RowV.present]; omega
   have hbl : (encBitmap r.present).length = (r.natts + 7) / 8 := by simp [encBitmap, hpl]
-  have hhn := formTuple_hasNull cols r
+  have hhn := formTupleH_hasNull h cols r
   unfold Proofs.mtuple rowTuple
   rw [hhn]
   congr 1
   by_cases hn : r.hasNull = true
   · simp only [hn, if_true]
     congr 1
-    simp only [Tuple.bitmapLen, Tuple.natts, formTuple, hn, if_true]
-    have : r.natts % 2048 = r.natts := Nat.mod_eq_of_lt (by omega)
+    simp only [Tuple.bitmapLen, Tuple.natts, formTupleH, hn, if_true]
+    have : (r.natts + 2048 * h.flags2) % 2048 = r.natts := natts_flags2 _ _ h1600
     rw [this, ← hbl, List.take_left']
     rfl
   · simp only [hn]; rfl
+
+theorem mtuple_formTuple (cols : List Col) (r : RowV) (hwf : r.WF cols) :
+    Proofs.mtuple (formTuple cols r) = rowTuple (Proofs.mtuple (formTuple cols r)).header cols r :=
+  mtuple_formTupleH {} cols r hwf
 
 end PgVerif.Proofs.Rows
